@@ -74,6 +74,7 @@ def main(pid, argv=None):
             i += 2
         else:
             i += 1
+    os.environ["VERIF_TIER_ACTIVE"] = tier
     modname = f"vf.props.{pid}"
     mod = importlib.import_module(modname)
     if replay_path:
@@ -154,7 +155,9 @@ def main(pid, argv=None):
     for r in (proved[:3] + viol[:3] + unknown[:2]):
         samples.append({k: r.get(k) for k in ("harness", "label", "status", "t", "cell")})
     cov = dict(
-        obligations=len(obligations), discharged=len(proved),
+        # obligations that fail exactly as recorded in known_findings.json are outside the claim and counted separately
+        obligations=len(obligations) - (len(viol) - len(new_viol)), obligations_including_known_findings=len(obligations),
+        discharged=len(proved),
         refuted_confirmed=len(viol), known_finding_obligations=len(viol) - len(new_viol),
         inconclusive=len(unknown), vacuous=len(vacuous),
         checker_cmd=f"./check {pid} --tier {tier}",
@@ -177,6 +180,16 @@ def main(pid, argv=None):
     for s in stats:
         for k, v in s.get("resolutions", {}).items():
             cov["resolutions"][k] = cov["resolutions"].get(k, 0) + v
+    cross = {"checked": 0, "agree": 0, "disagree": 0, "no_answer": 0}
+    cross_samples = []
+    for s in stats:
+        c = s.get("cross") or {}
+        for k in cross:
+            cross[k] += c.get(k, 0)
+        cross_samples += c.get("samples", [])
+    cov["second_solver_cvc5"] = cross
+    if cross["disagree"]:
+        harness_errors.append(("cross-check", f"z3 and cvc5 disagree on {cross['disagree']} obligation(s): {cross_samples[:3]}"))
     cov.update(ev)
     evidence = dict(property_id=pid, tier=tier, seed=seed, level=level, coverage=cov,
                     assumptions=getattr(mod, "ASSUMPTIONS", []), wall_s=round(wall, 2),
